@@ -39,7 +39,7 @@ PROPERTIES = {
         'units': ['utf8', 'escape', 'reparse', 'event', 'event_json', 'tags_json', 'event_parse', 'hexwrite'],
         'kani': ['leaf'], 'kani_quick': ['leaf'],
         'sample_functions': ['Event::as_json', 'Tags::as_json', 'json_escape', 'Event::from_parts', 'Id::write_hex'],
-        'not_decided': ['the re-parse lemma jevent(event_json(view)) == view as a statement over the two specs, and byte-identity of the re-parsed event (needs completeness at the entry point and canonicity of the parser output), are not stated; proved: a successfully parsed event satisfies the precondition of as_json (its strings are renderable), parse_json_event is faithful to the object scan jevent, Event::as_json == event_json(view) (member order, hex, decimal, NIP-01 escaping) with Tags::as_json == tags_json(view), json_escape == the NIP-01 escape function for every escapable string, from_parts == canonical packing whatever the buffer held, the JSON path zeroes the padding bytes and returns a well-formed event',
+        'not_decided': ['the re-parse lemma jevent(event_json(view)) == view as a statement over the two specs, and byte-identity of the re-parsed event (needs completeness at the entry point and canonicity of the parser output), are not stated; proved: the round trips at the leaves (unit reparse: unescaping an escaped string returns it; reading back a written number returns it; hex likewise), a successfully parsed event satisfies the precondition of as_json (its strings are renderable), parse_json_event is faithful to the object scan jevent, Event::as_json == event_json(view) (member order, hex, decimal, NIP-01 escaping) with Tags::as_json == tags_json(view), json_escape == the NIP-01 escape function for every escapable string, from_parts == canonical packing whatever the buffer held, the JSON path zeroes the padding bytes and returns a well-formed event',
                         'that event_json(view) is accepted by an independent JSON parser is a statement about that parser; the text is given as an explicit spec function to compare against'],
     },
     'C08': {
